@@ -323,8 +323,8 @@ Qed.
 
 (* the selection is bounded by the mapping built from the state in which it was last validated,
    and consists of candidates that are eligible nodes of that state *)
-Lemma disrupt_sel_le (s : sys) m cs ch b1 c1 b2 c2 p :
-  let '(sel, sv) := disrupt_sel s m cs ch b1 c1 b2 c2 in
+Lemma disrupt_sel_le (s : sys) m cs ch vok b1 c1 b2 c2 p :
+  let '(sel, sv) := disrupt_sel s m cs ch vok b1 c1 b2 c2 in
   count_pool p sel <= mapping_of sv (method_reason m) p /\
   (forall c, In c sel -> cand_ok sv c = true).
 Proof.
@@ -352,6 +352,8 @@ Proof.
     2:{ split; [rewrite count_pool_nil; apply mapping_of_nonneg|intros c []]. }
     destruct (validate (env_steps s b1) MMulti (propose s MMulti cs ch) c1) as [|v vs] eqn:Ev.
     { split; [rewrite count_pool_nil; apply mapping_of_nonneg|intros c []]. }
+    destruct vok; simpl negb; cbv iota.
+    2:{ split; [rewrite count_pool_nil; apply mapping_of_nonneg|intros c []]. }
     destruct (cands_ok (env_steps (env_steps s b1) b2) c2) eqn:E2; simpl negb; cbv iota.
     + split; [apply validate_le; reflexivity|].
       intros c Hc. apply (Hcur _ c2 c E2). apply (validate_incl _ MMulti _ _ _ eq_refl Hc).
@@ -361,6 +363,8 @@ Proof.
     2:{ split; [rewrite count_pool_nil; apply mapping_of_nonneg|intros c []]. }
     destruct (validate (env_steps s b1) MSingle (propose s MSingle cs ch) c1) as [|v vs] eqn:Ev.
     { split; [rewrite count_pool_nil; apply mapping_of_nonneg|intros c []]. }
+    destruct vok; simpl negb; cbv iota.
+    2:{ split; [rewrite count_pool_nil; apply mapping_of_nonneg|intros c []]. }
     destruct (cands_ok (env_steps (env_steps s b1) b2) c2) eqn:E2; simpl negb; cbv iota.
     + split; [apply validate_le; reflexivity|].
       intros c Hc. apply (Hcur _ c2 c E2). apply (validate_incl _ MSingle _ _ _ eq_refl Hc).
@@ -382,12 +386,12 @@ Definition round_holds (sv : sys) (r : reason) (sel : list cand) : Prop :=
     | None => count_pool p sel = 0
     end.
 
-Theorem round_within_budget_l (s : sys) m cs ch b1 c1 b2 c2 :
-  let '(sel, sv) := disrupt_sel s m cs ch b1 c1 b2 c2 in
+Theorem round_within_budget_l (s : sys) m cs ch vok b1 c1 b2 c2 :
+  let '(sel, sv) := disrupt_sel s m cs ch vok b1 c1 b2 c2 in
   budgets_ok sv -> round_holds sv (method_reason m) sel.
 Proof.
-  pose proof (fun p => disrupt_sel_le s m cs ch b1 c1 b2 c2 p) as H.
-  destruct (disrupt_sel s m cs ch b1 c1 b2 c2) as [sel sv].
+  pose proof (fun p => disrupt_sel_le s m cs ch vok b1 c1 b2 c2 p) as H.
+  destruct (disrupt_sel s m cs ch vok b1 c1 b2 c2) as [sel sv].
   intros Hb p. destruct (H p) as (Hle & _).
   unfold Model.mapping_of, build_mapping in Hle.
   destruct (find_pool (s_pools sv) p) as [pl|] eqn:Ef.
@@ -470,8 +474,8 @@ Proof.
   apply existsb_exists. exists i. split; [exact Hj|apply Z.eqb_refl].
 Qed.
 
-Lemma disrupt_sel_inv (s : sys) m cs ch b1 c1 b2 c2 :
-  inv s -> inv (snd (disrupt_sel s m cs ch b1 c1 b2 c2)).
+Lemma disrupt_sel_inv (s : sys) m cs ch vok b1 c1 b2 c2 :
+  inv s -> inv (snd (disrupt_sel s m cs ch vok b1 c1 b2 c2)).
 Proof.
   intros Hi. unfold Model.disrupt_sel.
   destruct (negb (cands_ok s cs)); [exact Hi|].
@@ -480,21 +484,23 @@ Proof.
   - destruct (negb (cands_ok (env_steps s b1) c1)); simpl; [apply inv_env_steps, Hi|].
     match goal with |- context [match ?v with [] => _ | _ :: _ => _ end] => destruct v end;
       simpl; [apply inv_env_steps, Hi|].
+    destruct vok; simpl; [|apply inv_env_steps, Hi].
     match goal with |- context [if ?v then _ else _] => destruct v end;
       simpl; apply inv_env_steps, inv_env_steps, Hi.
   - destruct (negb (cands_ok (env_steps s b1) c1)); simpl; [apply inv_env_steps, Hi|].
     match goal with |- context [match ?v with [] => _ | _ :: _ => _ end] => destruct v end;
       simpl; [apply inv_env_steps, Hi|].
+    destruct vok; simpl; [|apply inv_env_steps, Hi].
     match goal with |- context [if ?v then _ else _] => destruct v end;
       simpl; apply inv_env_steps, inv_env_steps, Hi.
 Qed.
 
 Lemma inv_step (s : sys) o : inv s -> inv (step s o).
 Proof.
-  intros Hi. destruct o as [e|m cs ch b1 c1 b2 c2|ids ok|]; unfold Model.step.
+  intros Hi. destruct o as [e|m cs ch vok b1 c1 b2 c2|ids ok|]; unfold Model.step.
   - apply inv_env, Hi.
-  - pose proof (disrupt_sel_inv s m cs ch b1 c1 b2 c2 Hi) as H.
-    destruct (disrupt_sel s m cs ch b1 c1 b2 c2) as [sel sv]. apply inv_start. exact H.
+  - pose proof (disrupt_sel_inv s m cs ch vok b1 c1 b2 c2 Hi) as H.
+    destruct (disrupt_sel s m cs ch vok b1 c1 b2 c2) as [sel sv]. apply inv_start. exact H.
   - destruct ok.
     + intros x Hx Hq. simpl in *. apply in_map_iff in Hx. destruct Hx as (y & Hy & Hin).
       unfold in_queue in Hq. simpl in Hq.
@@ -540,8 +546,8 @@ Qed.
 (* what holds at every step of every history *)
 Definition step_ok (s : sys) (o : op sid) : Prop :=
   match o with
-  | ODisrupt m cs ch b1 c1 b2 c2 =>
-      let '(sel, sv) := disrupt_sel s m cs ch b1 c1 b2 c2 in
+  | ODisrupt m cs ch vok b1 c1 b2 c2 =>
+      let '(sel, sv) := disrupt_sel s m cs ch vok b1 c1 b2 c2 in
       (budgets_ok sv -> round_holds sv (method_reason m) sel) /\
       (forall c, In c sel ->
          exists x, find_node sv (c_node c) = Some x /\ n_pool x = c_pool c /\
@@ -561,11 +567,11 @@ Proof.
   revert s0. induction ops as [|o t IH]; intros s Hi; simpl; [split; [exact I|exact Hi]|].
   destruct (IH (step s o) (inv_step s o Hi)) as (Ht & Hr).
   split; [|exact Hr]. split; [|exact Ht].
-  destruct o as [e|m cs ch b1 c1 b2 c2|ids ok|]; simpl; try exact I.
-  pose proof (round_within_budget_l s m cs ch b1 c1 b2 c2) as Hround.
-  pose proof (fun p => disrupt_sel_le s m cs ch b1 c1 b2 c2 p) as Hle.
-  pose proof (disrupt_sel_inv s m cs ch b1 c1 b2 c2 Hi) as Hinv.
-  destruct (disrupt_sel s m cs ch b1 c1 b2 c2) as [sel sv]. simpl in Hinv.
+  destruct o as [e|m cs ch vok b1 c1 b2 c2|ids ok|]; simpl; try exact I.
+  pose proof (round_within_budget_l s m cs ch vok b1 c1 b2 c2) as Hround.
+  pose proof (fun p => disrupt_sel_le s m cs ch vok b1 c1 b2 c2 p) as Hle.
+  pose proof (disrupt_sel_inv s m cs ch vok b1 c1 b2 c2 Hi) as Hinv.
+  destruct (disrupt_sel s m cs ch vok b1 c1 b2 c2) as [sel sv]. simpl in Hinv.
   split; [exact Hround|]. split.
   - intros c Hc. destruct (Hle 0) as (_ & Hok). apply cand_ok_fresh. apply Hok. exact Hc.
   - intros x Hx Hq. apply (inv_consuming sv x Hinv Hx Hq).
